@@ -468,7 +468,19 @@ class World:
         if p["default_options"] is not None:
             kw["default_options"] = self._given(p["default_options"])
         factory = abstractdataset if p["abstract"] else dataset
-        d = factory(body, **kw)
+        if p["factory"] == "chain":
+            # the same definition spelled as a chain of specialised factories: effects one call each (they
+            # accumulate), every other keyword in a call of its own, a NoCache via the .nocache property
+            for e in kw.pop("effects", []):
+                factory = factory(effects=[e])
+            if isinstance(kw.get("cache"), NoCache):
+                kw.pop("cache")
+                factory = factory.nocache
+            for k in list(kw):
+                factory = factory(**{k: kw.pop(k)})
+            d = factory(body)
+        else:
+            d = factory(body, **kw)
         self.datasets[name] = (repr(t), d)
         for alias, x in p["overloads"]:
             d.register(alias, self.build(x))
